@@ -125,6 +125,9 @@ def run(ctx):
         ws = list(base)
         ws[rng.randrange(12)] = bad
         cases.append((" ".join(ws), "unknown-word", "must", True))
+    for L in LENS:
+        for ph in pyref.extreme_phrases(rng, wl, L):
+            cases.append((ph, "extreme-text-length/%d" % L, "must", True))
     cases.append(("", "empty", "must", True))
     cases.append(("   \n\t ", "empty", "must", True))
     cases.append((" ".join(base) + "​", "zero-width-space-is-not-white-space", "must", True))
